@@ -244,8 +244,47 @@ def _overlapping(ctx, _parser, shipped, gen):
         ctx.not_reached("no overlapping parse ran")
 
 
+def _long_inputs():
+    """single tokens and whole texts far longer than anything typed by hand (generated documents, pasted data): the
+    grammar puts no bound on either"""
+    big = 70000
+    yield "q" * big
+    yield "1" * big
+    yield "1" * big + " m"
+    yield "m^" + "2" * big
+    yield "m" + "²" * big
+    yield "0." + "3" * big + " m"
+    yield "5 " + "k" * 66000 + "/s"
+    yield "m" + " " * 1100000 + "s"
+    yield "3 m" + "\n" * 1050000
+    yield "kilogram " * 120000
+    yield "7 m" + " \t" * 530000 + "/ s"
+
+
 def _differential(ctx, lark, _parser, fresh, shipped, gen, n, log, total_entries):
     accepted = rejected = 0
+    if ctx.shard == 0:
+        for text in _long_inputs():
+            for start in ("unit", "quantity"):
+                ctx.count("evaluations")
+                ctx.count("long_inputs")
+                try:
+                    a = ("ok", tree_shape(fresh.parse(text, start=start)))
+                except lark.exceptions.LarkError:
+                    a = ("reject",)
+                except Exception as e:
+                    a = ("crash", type(e).__name__)
+                try:
+                    b = ("ok", tree_shape(shipped.parse(text, start=start)))
+                except _parser.LarkError:
+                    b = ("reject",)
+                except Exception as e:
+                    b = ("crash", type(e).__name__)
+                ctx.distinct((text[:20], len(text), start), True)
+                if a != b:
+                    k = "accept-vs-reject" if a[0] != b[0] else "trees-differ"
+                    ctx.violation(f"C16:parsers-disagree:{k}", f"start={start} text={text[:30]!r}... ({len(text)} characters): grammar {str(a)[:120]} vs shipped {str(b)[:120]}",
+                                  {"text_head": text[:60], "length": len(text), "start": start})
     for i in range(n):
         text, kind = gen.any_text()
         for start in ("unit", "quantity"):
